@@ -348,6 +348,9 @@ def parse(kind: str, data: bytes, keep_log=False, budget=None, clock=True, real_
             if kind == "dex":
                 from androguard.core.dex import DEX
                 obj = DEX(data)
+            elif kind == "odex":
+                from androguard.core.dex import ODEX
+                obj = ODEX(data)
             elif kind == "axml":
                 from androguard.core.axml import AXMLPrinter
                 obj = AXMLPrinter(data)
